@@ -18,32 +18,6 @@ func (c20nopPlugin) OnOpenMessage(PeerConfig, netip.Addr, []Capability) *Notific
 func (c20nopPlugin) OnEstablished(PeerConfig, UpdateMessageWriter) UpdateMessageHandler { return nil }
 func (c20nopPlugin) OnClose(PeerConfig)                                                 {}
 
-// c20Addr returns a symbolic address of a symbolically chosen kind:
-// 0 invalid (zero Addr), 1 IPv4, 2 IPv6 (incl. v4-mapped, decided by the bytes), 3 zoned IPv6.
-func c20Addr(name string, kinds int) (netip.Addr, int) {
-	k := verifChoose(name+"-kind", kinds)
-	switch k {
-	case 0:
-		return netip.Addr{}, 0
-	case 1:
-		var a [4]byte
-		for i := range a {
-			a[i] = verifU8(name)
-		}
-		return netip.AddrFrom4(a), 1
-	default:
-		var a [16]byte
-		for i := range a {
-			a[i] = verifU8(name)
-		}
-		ad := netip.AddrFrom16(a)
-		if k == 3 {
-			ad = ad.WithZone("eth0")
-		}
-		return ad, k
-	}
-}
-
 func Verif_C20_new_server() {
 	a, k := c20Addr("rid", 4)
 	s, err := NewServer(a)
@@ -178,7 +152,9 @@ func Verif_C20_registry_sequence() {
 			verifCoverIf("list-two", len(ref) == 2)
 		}
 	}
-	verifAssert("mutex-released", s.mu == (c20zeroMutex()))
+	// every call released the server lock: one more call returns (a lock left held would be reported as a deadlock here)
+	_ = s.ListPeers()
+	verifCover("lock-released-after-every-call")
 }
 
 // concurrent registry use while serving: mutual exclusion (no happens-before race) and per-key consistency
